@@ -32,7 +32,7 @@ int main()
       MemoryPool pool;
       Erat e;
       e.init(u64(t[1]), u64(t[2]), u64(t[3]), pool);
-      std::cout << e.segmentLow_ << " " << e.segmentHigh_ << " " << e.sieve_.size() << " " << e.maxEratSmall_ << " " << e.maxEratMedium_ << std::endl;
+      std::cout << e.segmentLow_ << " " << e.segmentHigh_ << " " << e.sieve_.size() << " " << e.maxEratSmall_ << " " << e.maxEratMedium_ << " " << Erat::getL1CacheSize() << std::endl;
     } else if (t.size() >= 4 && (t[0] == "ASP30" || t[0] == "ASP210")) {
       // Wheel::addSievingPrime unit level: "<multipleIndex> <wheelIndex>" | "none"
       if (t[0] == "ASP30") { Rec<Wheel30_t> w; w.stop_ = u64(t[1]); w.addSievingPrime(u64(t[2]), u64(t[3])); if (w.stored) std::cout << w.mi << " " << w.wi << std::endl; else std::cout << "none" << std::endl; }
